@@ -113,32 +113,61 @@ Section DateFacts.
     apply dfc_zero; lia.
   Qed.
 
-  (** "days ago": the difference of the day numbers, as long as the Duration does not saturate
-      (about 292 years); beyond that the figure sticks at +-106751 *)
+  (** whole seconds since the epoch of a midnight: 86400 times its day number *)
+  Lemma unix_seconds_civil : forall y m d, unix_seconds (time_of_civil (y, m, d)) = days_from_civil y m d * 86400.
+  Proof.
+    intros y m d. unfold unix_seconds. rewrite inst_time_of_civil. unfold ns_per_day, ns_per_sec.
+    replace (days_from_civil y m d * 86400000000000) with (days_from_civil y m d * 86400 * 1000000000) by lia.
+    apply Z.div_mul. lia.
+  Qed.
+
+  (** "days ago" between two midnights: EXACTLY the difference of the day numbers, for every pair of
+      civil dates (no range condition, no saturation: the distance goes through [Unix()] seconds, not
+      through a [time.Duration]) *)
   Lemma days_between_civil : forall a b,
     let da := let '(y, m, d) := a in days_from_civil y m d in
     let db := let '(y, m, d) := b in days_from_civil y m d in
-    -106751 <= da - db <= 106751 ->
     days_between (time_of_civil a) (time_of_civil b) = da - db.
   Proof.
-    intros [[ya ma] da0] [[yb mb] db0] da db H. unfold days_between.
-    rewrite !inst_time_of_civil. fold da db. unfold max_duration, ns_per_day in *.
-    replace (da * 86400000000000 - db * 86400000000000) with ((da - db) * 86400000000000) by lia.
-    rewrite Z.min_r by lia. rewrite Z.max_r by lia. apply Z.quot_mul. lia.
+    intros [[ya ma] da0] [[yb mb] db0] da db. unfold days_between.
+    rewrite !unix_seconds_civil. fold da db.
+    replace (da * 86400 - db * 86400) with ((da - db) * 86400) by lia.
+    apply Z.quot_mul. lia.
   Qed.
 
-  Lemma days_between_saturates : forall a b,
-    let da := let '(y, m, d) := a in days_from_civil y m d in
+  (** [now] any time (any instant, any zone offset), the record a midnight: the whole seconds of [now]
+      minus the seconds of the record's day, divided by 86400 towards zero *)
+  Lemma days_between_now : forall (now : time) b,
     let db := let '(y, m, d) := b in days_from_civil y m d in
-    (106751 < da - db -> days_between (time_of_civil a) (time_of_civil b) = 106751)
-    /\ (da - db < -106751 -> days_between (time_of_civil a) (time_of_civil b) = -106751).
+    days_between now (time_of_civil b) = Z.quot (inst now / ns_per_sec - db * 86400) 86400.
   Proof.
-    intros [[ya ma] da0] [[yb mb] db0] da db. unfold days_between.
-    rewrite !inst_time_of_civil. fold da db. unfold max_duration, ns_per_day in *.
-    replace (da * 86400000000000 - db * 86400000000000) with ((da - db) * 86400000000000) by lia.
-    split; intro H.
-    - rewrite Z.min_l by lia. rewrite Z.max_r by lia. vm_compute. reflexivity.
-    - rewrite Z.min_r by lia. rewrite Z.max_l by lia. vm_compute. reflexivity.
+    intros now [[yb mb] db0] db. unfold days_between. rewrite unix_seconds_civil. reflexivity.
+  Qed.
+
+  (** [now] on a whole second [s] (seconds since the epoch), any zone offset *)
+  Lemma days_between_seconds : forall (now : time) b s,
+    let db := let '(y, m, d) := b in days_from_civil y m d in
+    inst now = s * ns_per_sec ->
+    days_between now (time_of_civil b) = Z.quot (s - db * 86400) 86400.
+  Proof.
+    intros now b s db H. unfold db. rewrite days_between_now. rewrite H.
+    unfold ns_per_sec. rewrite Z.div_mul by lia. reflexivity.
+  Qed.
+
+  (** the same with [now] split into its (UTC) day number [dn] and the second [r] of that day: the day
+      difference, rounded towards zero (a record in the future of a [now] that is not a midnight is one
+      day nearer than the difference of the day numbers) *)
+  Lemma days_between_day_part : forall (now : time) b dn r,
+    let db := let '(y, m, d) := b in days_from_civil y m d in
+    inst now = (dn * 86400 + r) * ns_per_sec -> 0 <= r < 86400 ->
+    days_between now (time_of_civil b)
+    = if (db <=? dn) || (r =? 0) then dn - db else dn - db + 1.
+  Proof.
+    intros now b dn r db H Hr. unfold db. rewrite (days_between_seconds now b _ H). fold db.
+    replace (dn * 86400 + r - db * 86400) with ((dn - db) * 86400 + r) by lia.
+    destruct (Z.leb_spec db dn) as [Hle|Hlt]; cbn [orb].
+    - Z.quot_rem_to_equations. lia.
+    - destruct (Z.eqb_spec r 0) as [->|Hnz]; Z.quot_rem_to_equations; lia.
   Qed.
 End DateFacts.
 
@@ -241,10 +270,10 @@ Section Stats.
   Qed.
 
   (** *** the log callback's fold *)
-  Definition stats_step (toks : list ltoken) (st : nat * time * time) (n : pnode) : nat * time * time :=
+  Definition stats_step (toks : list ltoken) (st : nat * option time * time) (n : pnode) : nat * option time * time :=
     let '(cnt, first, last) := st in
     match parse_date toks (header n) with
-    | Some c => (S cnt, if is_zero_time first then time_of_civil c else first, time_of_civil c)
+    | Some c => (S cnt, match first with Some _ => first | None => Some (time_of_civil c) end, time_of_civil c)
     | None => (S cnt, first, zero_time)
     end.
 
@@ -254,27 +283,22 @@ Section Stats.
     destruct (parse_date toks (header n)); reflexivity.
   Qed.
 
-  Lemma stats_first_nonzero : forall toks ns cnt first last,
-    is_zero_time first = false ->
-    snd (fst (fold_left (stats_step toks) ns (cnt, first, last))) = first.
+  (** once a dated heading has been seen, the first record never changes (whatever date it is) *)
+  Lemma stats_first_kept : forall toks ns cnt t last,
+    snd (fst (fold_left (stats_step toks) ns (cnt, Some t, last))) = Some t.
   Proof.
-    intros toks ns. induction ns as [|n r IH]; intros cnt first last Hz; [reflexivity|].
-    cbn [fold_left stats_step]. destruct (parse_date toks (header n)) as [c|].
-    - rewrite Hz. apply IH. exact Hz.
-    - apply IH. exact Hz.
+    intros toks ns. induction ns as [|n r IH]; intros cnt t last; [reflexivity|].
+    cbn [fold_left stats_step]. destruct (parse_date toks (header n)) as [c|]; apply IH.
   Qed.
 
   Lemma stats_fold_first : forall toks ns cnt last,
-    snd (fst (fold_left (stats_step toks) ns (cnt, zero_time, last)))
-    = stats_first (heading_dates NM toks ns).
+    snd (fst (fold_left (stats_step toks) ns (cnt, None, last)))
+    = stats_first_opt (heading_dates NM toks ns).
   Proof.
     intros toks ns. induction ns as [|n r IH]; intros cnt last; [reflexivity|].
-    cbn [fold_left stats_step heading_dates map stats_first].
+    cbn [fold_left stats_step heading_dates map stats_first_opt].
     destruct (parse_date toks (header n)) as [c|] eqn:Ep.
-    - change (is_zero_time zero_time) with true. cbv iota.
-      destruct (is_zero_time (time_of_civil c)) eqn:Ez.
-      + rewrite (parsed_zero_time _ _ _ Ep Ez). apply IH.
-      + apply stats_first_nonzero. exact Ez.
+    - apply stats_first_kept.
     - apply IH.
   Qed.
 
@@ -295,14 +319,14 @@ Section Stats.
   Qed.
 
   Lemma stats_fold_spec : forall toks ns,
-    fold_left (stats_step toks) ns (O, zero_time, zero_time)
-    = (length ns, stats_first (heading_dates NM toks ns), stats_last (heading_dates NM toks ns)).
+    fold_left (stats_step toks) ns (O, None, zero_time)
+    = (length ns, stats_first_opt (heading_dates NM toks ns), stats_last (heading_dates NM toks ns)).
   Proof.
     intros toks ns.
-    pose proof (stats_fold_count toks ns O zero_time zero_time) as H1.
+    pose proof (stats_fold_count toks ns O None zero_time) as H1.
     pose proof (stats_fold_first toks ns O zero_time) as H2.
-    pose proof (stats_fold_last toks ns O zero_time zero_time) as H3.
-    destruct (fold_left (stats_step toks) ns (O, zero_time, zero_time)) as [[c f] l]. cbn [fst snd] in *.
+    pose proof (stats_fold_last toks ns O None zero_time) as H3.
+    destruct (fold_left (stats_step toks) ns (O, None, zero_time)) as [[c f] l]. cbn [fst snd] in *.
     subst c f l. rewrite Nat.add_0_r. f_equal. destruct ns; reflexivity.
   Qed.
 
@@ -310,14 +334,32 @@ Section Stats.
   Lemma stats_last_snoc : forall ds o, stats_last (ds ++ [o]) = match o with Some c => time_of_civil c | None => zero_time end.
   Proof. intros ds o. unfold stats_last. rewrite last_last. reflexivity. Qed.
 
-  Lemma stats_first_spec : forall ds,
-    match find (fun o => match o with Some c => negb (is_zero_time (time_of_civil c)) | None => false end) ds with
-    | Some (Some c) => stats_first ds = time_of_civil c
-    | _ => stats_first ds = zero_time
-    end.
+  Definition is_dated (o : option (Z * Z * Z)) : bool := match o with Some _ => true | None => false end.
+
+  (** the first record is the FIRST heading that is a date, whatever date that is *)
+  Lemma stats_first_opt_find : forall ds,
+    stats_first_opt ds = match find is_dated ds with Some (Some c) => Some (time_of_civil c) | _ => None end.
+  Proof. induction ds as [|[c|] r IH]; cbn [find stats_first_opt is_dated]; [reflexivity | reflexivity | exact IH]. Qed.
+
+  Lemma stats_first_find : forall ds,
+    stats_first ds = match find is_dated ds with Some (Some c) => time_of_civil c | _ => zero_time end.
   Proof.
-    induction ds as [|[c|] r IH]; cbn [find stats_first]; [reflexivity | | exact IH].
-    destruct (is_zero_time (time_of_civil c)); cbn [negb]; [exact IH | reflexivity].
+    intro ds. unfold stats_first. rewrite stats_first_opt_find.
+    destruct (find is_dated ds) as [[c|]|]; reflexivity.
+  Qed.
+
+  Lemma stats_first_opt_split : forall pre c post,
+    (forall o, In o pre -> o = None) -> stats_first_opt (pre ++ Some c :: post) = Some (time_of_civil c).
+  Proof.
+    induction pre as [|o r IH]; intros c post H; [reflexivity|].
+    rewrite (H o (or_introl eq_refl)). cbn [app stats_first_opt]. apply IH.
+    intros o' K. apply H. right. exact K.
+  Qed.
+
+  Lemma stats_first_opt_none : forall ds, (forall o, In o ds -> o = None) -> stats_first_opt ds = None.
+  Proof.
+    induction ds as [|o r IH]; intro H; [reflexivity|].
+    rewrite (H o (or_introl eq_refl)). cbn [stats_first_opt]. apply IH. intros o' K. apply H. right. exact K.
   Qed.
 
   (** *** stats_spec, on the callback folds *)
@@ -325,19 +367,23 @@ Section Stats.
     snd (scan data NoFault) = ScanEOF -> no_parse_error NM (events NM data) ->
     let ns := nodes_of NM (events NM data) in
     let ds := heading_dates NM toks ns in
-    (* the log walk: count, first, last *)
-    parse_opened NM (stats_log_cb NM toks) (OData data NoFault) (O, zero_time, zero_time)
-      = ((length (events NM data), stats_first ds, stats_last ds), None)
+    (* the log walk: count, first dated heading (if any), last *)
+    parse_opened NM (stats_log_cb NM toks) (OData data NoFault) (O, None, zero_time)
+      = ((length (events NM data), stats_first_opt ds, stats_last ds), None)
     (* the book walk: count *)
     /\ parse_opened NM (stats_db_cb NM) (OData data NoFault) O = (length (events NM data), None)
     (* every event is a heading record *)
     /\ map ENode ns = events NM data
-    (* first: the first heading date that parses and is not 0001-01-01; else the zero time *)
-    /\ match find (fun o => match o with Some c => negb (is_zero_time (time_of_civil c)) | None => false end) ds with
-       | Some (Some c) => stats_first ds = time_of_civil c
-       | _ => stats_first ds = zero_time
-       end
-    /\ (forall c, In (Some c) ds -> (is_zero_time (time_of_civil c) = true <-> c = (1, 1, 1)%Z))
+    (* first: the FIRST heading that parses as a date, whatever date it is (0001-01-01 included) ... *)
+    /\ (forall pre c post, ds = pre ++ Some c :: post -> (forall o, In o pre -> o = None) ->
+          stats_first_opt ds = Some (time_of_civil c) /\ stats_first ds = time_of_civil c)
+    (* ... and the zero time is printed when no heading is a date *)
+    /\ ((forall o, In o ds -> o = None) -> stats_first_opt ds = None /\ stats_first ds = zero_time)
+    (* the same in one formula *)
+    /\ stats_first ds = match find (fun o => match o with Some _ => true | None => false end) ds with
+                        | Some (Some c) => time_of_civil c
+                        | _ => zero_time
+                        end
     (* last: the date of the last heading; the zero time when it does not parse or there is none *)
     /\ stats_last ds = match last ds None with Some c => time_of_civil c | None => zero_time end.
   Proof.
@@ -354,12 +400,12 @@ Section Stats.
         rewrite G. lia.
       - intros s n. reflexivity. }
     split; [apply nodes_of_events; exact Hne|].
-    split; [apply stats_first_spec|].
-    split; [|reflexivity].
-    intros c Hc. unfold ds, heading_dates in Hc. apply in_map_iff in Hc. destruct Hc as [n [Hn _]].
     split.
-    - intro Hz. apply (parsed_zero_time _ _ _ Hn Hz).
-    - intro E. subst c. reflexivity.
+    { intros pre c post E Hpre. unfold stats_first. rewrite E, (stats_first_opt_split pre c post Hpre).
+      split; reflexivity. }
+    split.
+    { intro Hall. unfold stats_first. rewrite (stats_first_opt_none ds Hall). split; reflexivity. }
+    split; [apply stats_first_find | reflexivity].
   Qed.
 
   (** *** [--today] *)
@@ -394,7 +440,8 @@ Section Stats.
       match open_file w (op_log op) with
       | None | Some ONone => finish wr (Failed EOpen)
       | Some olog =>
-          let '((count_log, first, last), e1) := parse_opened NM (stats_log_cb NM toks) olog (O, zero_time, zero_time) in
+          let '((count_log, first_opt, last), e1) := parse_opened NM (stats_log_cb NM toks) olog (O, None, zero_time) in
+          let first := match first_opt with Some t => t | None => zero_time end in
           match e1 with
           | Some e => finish wr (Failed e)
           | None =>
@@ -490,10 +537,75 @@ Example ex_log_no_error : no_parse_error ZNum (events ZNum ex_log).
 Proof. apply no_err_b_sound. vm_compute. reflexivity. Qed.
 
 Example ex_stats_fold :
-  parse_opened ZNum (stats_log_cb ZNum ex_toks) (OData ex_log NoFault) (O, zero_time, zero_time)
-  = ((4%nat, time_of_civil (2021, 1, 2)%Z, zero_time), None)
+  parse_opened ZNum (stats_log_cb ZNum ex_toks) (OData ex_log NoFault) (O, None, zero_time)
+  = ((4%nat, Some (time_of_civil (1, 1, 1)%Z), zero_time), None)
   /\ heading_dates ZNum ex_toks (nodes_of ZNum (events ZNum ex_log))
      = [Some (1, 1, 1)%Z; Some (2021, 1, 2)%Z; Some (2021, 1, 5)%Z; None]
   /\ days_between (time_of_civil (2021, 1, 10)%Z) (time_of_civil (2021, 1, 2)%Z) = 8%Z
-  /\ days_between (time_of_civil (2021, 1, 10)%Z) zero_time = 106751%Z.
+  /\ days_between (time_of_civil (2021, 1, 10)%Z) zero_time = 737799%Z.
+Proof. vm_compute. repeat split; reflexivity. Qed.
+
+(** *** the two repaired behaviours, on concrete inputs *)
+
+(** a log whose headings are 0001/01/01, 0001/01/03, 0001/01/05 *)
+Definition z_log : bytes :=
+  b "0001/01/01" ++ ex_nl ++ b "  bread 2" ++ ex_nl ++
+  b "0001/01/03" ++ ex_nl ++ b "  milk 1" ++ ex_nl ++
+  b "0001/01/05" ++ ex_nl ++ b "  bread 3" ++ ex_nl.
+Definition z_world : world :=
+  {| w_fs := [(b "log.yaml", FFile z_log)];
+     w_default_config := b "/root/.hranoprovod/config"; w_tz := 0%Z; w_clock := time_of_civil (2021, 1, 10)%Z;
+     w_or := {| o_resolve := fun l => l; o_day := fun _ l => l; o_flush := fun l => l |};
+     w_sink := None; w_read_fault := [] |}.
+Definition z_inv : invocation :=
+  {| i_f_db := None; i_e_db := None; i_f_log := None; i_e_log := None; i_f_fmt := None; i_e_fmt := None;
+     i_f_depth := None; i_e_depth := None; i_f_today := Some (b "0001/01/10"); i_f_config := None; i_e_config := None;
+     i_no_database := true; i_g_begin := None; i_g_end := None; i_l_begin := None; i_l_end := None;
+     i_g_no_color := true; i_l_no_color := false; i_single_food := []; i_single_element := [];
+     i_group_food := false; i_csv := false; i_no_totals := false; i_totals_only := false;
+     i_shorten := false; i_old := false; i_template := None; i_collapse := false; i_collapse_last := false;
+     i_desc := false; i_silent := false; i_cmd := CStats |}.
+
+(** repair 1 (the first record has a flag of its own).  The log's first heading is 0001/01/01, the zero
+    time itself; [stats] reports it as first record, 9 days before --today 0001/01/10.
+    OLD behaviour (before the repair the zero time was the "not yet seen" mark, [if is_zero_time first
+    then t else first]): the first heading was taken for "nothing seen yet" and the SECOND heading was
+    reported, "  First record:       0001/01/03 (7 days ago)", the state after the walk being
+    [(3, time_of_civil (1,1,3), time_of_civil (1,1,5))]. *)
+Example stats_first_record_zero_date :
+  (* the walk: three headings, the first dated one is 0001/01/01, the last one 0001/01/05 *)
+  parse_opened ZNum (stats_log_cb ZNum ex_toks) (OData z_log NoFault) (O, None, zero_time)
+  = ((3%nat, Some (time_of_civil (1, 1, 1)%Z), time_of_civil (1, 1, 5)%Z), None)
+  /\ heading_dates ZNum ex_toks (nodes_of ZNum (events ZNum z_log))
+     = [Some (1, 1, 1)%Z; Some (1, 1, 3)%Z; Some (1, 1, 5)%Z]
+  /\ stats_first (heading_dates ZNum ex_toks (nodes_of ZNum (events ZNum z_log))) = time_of_civil (1, 1, 1)%Z
+  (* and the whole program, [stats --no-database --today 0001/01/10] *)
+  /\ run ZNum z_world z_inv
+     = {| out_stdout :=
+            b "  Database file:      " ++ ex_nl ++
+            b "  Database records:   0" ++ ex_nl ++
+            ex_nl ++
+            b "  Log file:           log.yaml" ++ ex_nl ++
+            b "  Log records:        3" ++ ex_nl ++
+            b "  Today:              0001/01/10" ++ ex_nl ++
+            b "  First record:       0001/01/01 (9 days ago)" ++ ex_nl ++
+            b "  Last record:        0001/01/05 (5 days ago)" ++ ex_nl;
+          out_status := Ok |}.
+Proof. vm_compute. repeat split; reflexivity. Qed.
+
+(** repair 2 (the distance in days goes through [Unix()] seconds).  Distances beyond about 292 years:
+    OLD behaviour (through [time.Duration], which saturates at 2^63-1 ns): both figures below were
+    106751 and -106751. *)
+Example stats_days_far :
+  days_between (time_of_civil (2021, 1, 2)%Z) (time_of_civil (1700, 1, 1)%Z) = 117244%Z
+  /\ days_between (time_of_civil (2021, 1, 2)%Z) (time_of_civil (2400, 1, 1)%Z) = (-138425)%Z.
+Proof. vm_compute. split; reflexivity. Qed.
+
+(** the ends of what a four-digit year can express, and a [now] that is not a midnight
+    (2021/01/02 13:00:01 in a zone 2 h east: the zone does not matter, the rounding is towards zero) *)
+Example stats_days_far_ends :
+  days_between (time_of_civil (9999, 12, 31)%Z) (time_of_civil (0, 1, 1)%Z) = 3652424%Z
+  /\ days_between (time_of_civil (0, 1, 1)%Z) (time_of_civil (9999, 12, 31)%Z) = (-3652424)%Z
+  /\ (let now := {| inst := (18629 * 86400 + 46801) * ns_per_sec; off := 7200; civ := (2021, 1, 2) |} in
+      days_between now (time_of_civil (2021, 1, 1)) = 1 /\ days_between now (time_of_civil (2021, 1, 5)) = -2)%Z.
 Proof. vm_compute. repeat split; reflexivity. Qed.
